@@ -804,6 +804,74 @@ func runC09(c *Ctx) {
 				c.check(good, fn, "shrink", a.Instr.Pos(), "the write area shrinks by at most WriteLen()", name+" can move wi below ri (the amount is not bounded by WriteLen()): committed, unread bytes are cut off")
 			}
 		}
+		for _, name := range []string{"UnreadByte", "ShrinkBy"} {
+			if len(storesDeep(m(name), wi)) == 0 {
+				c.bad(m(name), "shrink", m(name).Pos(), name+" does not move wi at all: the byte(s) it reports as removed stay in the write area")
+			}
+		}
+		// Read copies from the read area and consumes exactly what it copied
+		{
+			fn := m("Read")
+			good := false
+			why := "Read does not copy out of data[si:ri]"
+			eachInstr(fn, func(in ssa.Instruction) {
+				call, ok := in.(*ssa.Call)
+				if !ok {
+					return
+				}
+				b, isB := call.Call.Value.(*ssa.Builtin)
+				if !isB || b.Name() != "copy" {
+					return
+				}
+				why = "Read does not consume the number of bytes it copied on its way to the success return"
+				for _, cc := range deepCallsTo(fn, m("Consume")) {
+					if stripConv(cc.translate(cc.Call.Call.Args[1])) != ssa.Value(call) {
+						continue
+					}
+					okRet := true
+					for _, r := range returnsOf(fn) {
+						if stripConv(r.Results[0]) == ssa.Value(call) && !dominatesInstr(cc.Site, r) {
+							okRet = false
+						}
+					}
+					if okRet {
+						good = true
+					}
+				}
+			})
+			c.check(good, fn, "read consumes", fn.Pos(), "Consume(n) with n the count copied, before n is returned", why+": the same bytes are read again by the next call (duplicated), or bytes that were not copied are dropped")
+		}
+		// DiscardAll discards the whole save area
+		{
+			fn := m("DiscardAll")
+			good := false
+			for _, dc := range deepCallsTo(fn, m("Discard")) {
+				// the slot {Index: 0, Length: SaveLen()}
+				arg := dc.Call.Call.Args[1]
+				idxOK, lenOK := true, false // Index defaults to 0 in a composite literal
+				eachInstr(fn, func(in ssa.Instruction) {
+					st, ok := in.(*ssa.Store)
+					if !ok {
+						return
+					}
+					fv, _ := fieldAddrOf(st.Addr)
+					if fv == nil {
+						return
+					}
+					switch fv.Name() {
+					case "Index":
+						idxOK = isConstInt(st.Val, 0)
+					case "Length":
+						lenOK = exprString(st.Val, nil, 0) == "SaveLen()" || exprString(st.Val, nil, 0) == "si"
+					}
+				})
+				_ = arg
+				if idxOK && lenOK {
+					good = true
+				}
+			}
+			c.check(good, fn, "discard all", fn.Pos(), "Discard(Slot{0, SaveLen()})", "DiscardAll does not discard the slot [0, SaveLen()): saved bytes stay in the buffer (or a part of them is removed) although the caller was told the save area is empty")
+		}
 		// ShrinkTo(n) leaves min(n, WriteLen()) bytes: it shrinks by WriteLen() - n (ShrinkBy clamps and ignores a negative amount)
 		{
 			fn := m("ShrinkTo")
